@@ -21,10 +21,14 @@ def enum_nosentinel(prog, name):
 
 
 class HalModel:
-    def __init__(self, prog, kind, ns=""):
+    def __init__(self, prog, kind, ns="", wellbehaved=False):
         self.prog = prog
         self.kind = kind  # 'Camera' | 'Storage'
         self.ns = ns
+        # wellbehaved: the driver answers as the shipped devices do, except
+        # that a frame call / an append may fail (used by the API-level
+        # simulation, where the histories are the client's, not the driver's)
+        self.wellbehaved = wellbehaved
         self.G_STARTED = ("G", "started" + ns)
         self.G_CLOSED = ("G", "closed" + ns)
         self.G_LAST = ("G", "last" + ns)
@@ -98,7 +102,7 @@ class HalModel:
             if ety is None:
                 yield (TOP, s.set(self.G_LAST, (slot, None)))
                 return
-            for name, val in enum_nosentinel(self.prog, ety):
+            for name, val in self.answers(slot, ety):
                 s2 = s.set(self.G_LAST, (slot, val))
                 if slot == "start":
                     ok = (val == self.OK) if ety == "DeviceStatusCode" else (val == self.RUNNING)
@@ -116,14 +120,28 @@ class HalModel:
                 yield (I(val), s2)
         return stub
 
+    def answers(self, slot, ety):
+        allv = enum_nosentinel(self.prog, ety)
+        if not self.wellbehaved:
+            return allv
+        if ety == "DeviceStatusCode":
+            keep = {"Device_Ok"} | ({"Device_Err"} if slot == "get_frame" else set())
+        else:
+            keep = {"set": {"DeviceState_Armed"}, "start": {"DeviceState_Running"},
+                    "stop": {"DeviceState_Armed"},
+                    "append": {"DeviceState_Running", "DeviceState_Armed"}}.get(slot, {n for n, v in allv})
+        return [(n, v) for n, v in allv if n in keep]
+
     def get_driver(self, it, s, vals, fr, n):
         return [(("ptr", self.DRV, ()), s)]
 
     def drv_open(self, it, s, vals, fr, n):
         # failure: no device
-        yield (I(self.status["Device_Err"]), s)
+        if not self.wellbehaved:
+            yield (I(self.status["Device_Err"]), s)
         # success, for each initial state a shipped constructor produces
-        for init in ("DeviceState_AwaitingConfiguration", "DeviceState_Closed"):
+        for init in (("DeviceState_AwaitingConfiguration",) if self.wellbehaved else
+                     ("DeviceState_AwaitingConfiguration", "DeviceState_Closed")):
             s2, p = it.new_object(s, self.DEV[4:])
             obj = p[1]
             upd = {(obj, ("state",)): I(self.states[init])}
@@ -138,6 +156,8 @@ class HalModel:
 
     def drv_describe(self, it, s, vals, fr, n):
         for name, val in self.status.items():
+            if self.wellbehaved and name != "Device_Ok":
+                continue
             yield (I(val), s)
 
     def drv_close(self, it, s, vals, fr, n):
@@ -151,6 +171,8 @@ class HalModel:
         if is_ptr(dev):
             s2 = it.free_object(s2, dev, "driver close")
         for name, val in self.status.items():
+            if self.wellbehaved and name != "Device_Ok":
+                continue
             yield (I(val), s2)
 
     # -- harness -----------------------------------------------------------
